@@ -344,6 +344,21 @@ impl StepHandler for H15 {
             _ => false,
         };
         if !consistent {
+            if let Some(cmds) = pure_contrib(world, s) {
+                if cmds.iter().all(|c| matches!(c, Contrib::StatReg(..) | Contrib::StatPreset | Contrib::Cls)) {
+                    let code = match &o.result {
+                        Ok(()) => "ok".to_string(),
+                        Err(e) => format!("{}", e.code).replace('-', "m"),
+                    };
+                    out.push(Finding::new(
+                        "C15.command_result",
+                        format!("status_message_returned_{}", code),
+                        i,
+                        format!("{} returned {:?}, expected {:?}", describe_msg(s), o.result, pred.result.as_ref().map_err(|e| e.describe())),
+                    ));
+                    return;
+                }
+            }
             stats.bump("skipped_result_not_as_predicted");
             return;
         }
